@@ -278,7 +278,7 @@ pub fn case(ctx: &mut Ctx, tag: &str, small: &str, cache: &str, schedule: &str, 
                 // send everything but keep the sending side open: does the answer arrive without waiting for EOF?
                 let _ = client.write_all(&all);
                 // generous when an early answer is due (over-limit body), short when the server has to wait for EOF
-                let due = specs.iter().any(|(bytes, _, beh)| matches!(beh, Beh::GetBody(m) if (bytes.len() as u64) > *m + 60));
+                let due = specs.iter().any(|(bytes, _, beh)| matches!(beh, Beh::GetBody(m) if (bytes.len() as u64) > *m + 22));
                 let _ = client.set_read_timeout(Some(Duration::from_millis(if due { 8000 } else { 400 })));
                 early = read_one_response(&mut client, &mut transcript);
             }
